@@ -20,6 +20,7 @@ from mc.client import ScriptPeer, WireConnector
 from mc.core import Part
 
 PROPERTY = "C06"
+explorer.PROP = PROPERTY
 
 KEYS = {
     0: ("http://a.test/", {}),
